@@ -105,23 +105,28 @@ RECURSIVE Concat(_, _)
 Concat(bs, ks) == IF ks = <<>> THEN <<>> ELSE bs[Head(ks)] \o Concat(bs, Tail(ks))
 TInsertRace ==
   /\ IsEvent("InsertRace")
-  /\ fault' = FALSE /\ Env /\ UNCHANGED kf
+  /\ fault' = FALSE /\ Env
   /\ LET succ == SelectSeq([k \in DOMAIN E.oks |-> k], LAMBDA k : E.oks[k] = 1)
          all == Concat(E.batches, succ)
      IN  /\ PNodesFunctional(E.P)
          /\ Sh!InsertBatch(all, PN(E.P), PF(E.P), E.P.next)     \* accepted requests are pairwise disjoint and new
          /\ count' = E.P.count
          /\ \A k \in DOMAIN E.oks : E.oks[k] = 0 =>
-               (~Sh!InsertValid(E.batches[k]) \/ Sh!BIds(E.batches[k]) \cap Sh!BIds(all) # {})
-         /\ ((\A k \in DOMAIN E.oks : Sh!InsertValid(E.batches[k])) => Len(succ) >= 1)
+               (~Sh!InsertValid(E.batches[k]) \/ Sh!BIds(E.batches[k]) \cap Sh!BIds(all) # {} \/ KFEmptyKey(E.batches[k]))
+         /\ ((\A k \in DOMAIN E.oks : Sh!InsertValid(E.batches[k]) /\ ~KFEmptyKey(E.batches[k])) => Len(succ) >= 1)
+         \* (the known finding emptykey excuses a refusal that nothing else explains)
+         /\ Note(\E k \in DOMAIN E.oks : E.oks[k] = 0 /\ Sh!InsertValid(E.batches[k]) /\ Sh!BIds(E.batches[k]) \cap Sh!BIds(all) = {}, "emptykey")
   /\ VersPush
 
 \* Write requests of any kind issued at the same time on pairwise DISJOINT id sets: whatever order the single
 \* writer lock gives them, each is judged against the state before the race (its ids are touched by nobody else)
 \* and the state after all of them is the state after applying them one after the other.
+\* (the known finding emptykey excuses a failure, as in TInsert / TUpdate)
+RaceExcused(op) == op.ok = 0 /\ op.kind \in {"insert", "update"} /\ KFEmptyKey(op.pts)
+                   /\ (IF op.kind = "insert" THEN Sh!InsertValid(op.pts) ELSE ~Sh!UpdOversize(pts, op.pts, lim))
 RaceOpOK(op) ==
-  CASE op.kind = "insert" -> (op.ok = 1) <=> Sh!InsertValid(op.pts)
-    [] op.kind = "update" -> (op.ok = 1) <=> ~Sh!UpdOversize(pts, op.pts, lim)
+  CASE op.kind = "insert" -> IF op.ok = 1 THEN Sh!InsertValid(op.pts) ELSE ~Sh!InsertValid(op.pts) \/ KFEmptyKey(op.pts)
+    [] op.kind = "update" -> IF op.ok = 1 THEN ~Sh!UpdOversize(pts, op.pts, lim) ELSE Sh!UpdOversize(pts, op.pts, lim) \/ KFEmptyKey(op.pts)
     [] OTHER -> op.ok = 1
 RaceApply(P, op) ==
   IF op.ok = 0 THEN P
@@ -132,7 +137,8 @@ RECURSIVE RaceFold(_, _)
 RaceFold(P, ops) == IF ops = <<>> THEN P ELSE RaceFold(RaceApply(P, Head(ops)), Tail(ops))
 TWriteRace ==
   /\ IsEvent("WriteRace")
-  /\ fault' = FALSE /\ Env /\ UNCHANGED kf
+  /\ fault' = FALSE /\ Env
+  /\ Note(\E k \in DOMAIN E.ops : RaceExcused(E.ops[k]), "emptykey")
   /\ \A k \in DOMAIN E.ops : RaceOpOK(E.ops[k])
   /\ PNodesFunctional(E.P)
   /\ pts' = RaceFold(pts, E.ops)
